@@ -273,11 +273,13 @@ def main():
         plan = [(m, b, max(50, int(n * scale))) for m, b, n in plan]
         c.extra["plan_scale"] = scale
     jobs = []
-    per = 125 if not thorough else 500
+    per = 125 if not thorough else 180      # < 200: a worker never has to drop a violation record (vlib.Worker cap)
     for mode, big, n in plan:
         for s in range(0, n, per):
             jobs.append({"mode": mode, "big": big, "start": s, "count": min(per, n - s)})
     vlib.fanout("checks.C03", jobs, c, timeout=3000 if thorough else 600)
+    if c.counters.get("violations_dropped_over_200"):
+        c.note_inconclusive("a worker dropped violation records (cap 200): an unclassified one may be among them")
     total = sum(n for _, _, n in plan)
     c.floor("evaluations", total)
     c.floor("graphs_built", int(total * 0.5))
